@@ -84,6 +84,32 @@ def check_typed(fx, rep, rule, impl):
 
     loop_forms = {}
     flat_forms = {}
+    # the whole body delegated to a private generic helper `H(trace, f, g)` that recurses on itself for the cause: `H(cause, f, g)`
+    # with the same f, g is this function applied to the cause (same helper, same arguments)
+    deleg = None
+    tail = F.strip(b["body"])
+    while tail.get("k") == "Block" and not tail.get("stmts") and tail.get("tail") is not None:
+        tail = F.strip(tail["tail"])
+    if tail.get("k") == "Call" and "fn" in tail:
+        ht = fx.by_dp.get(tail["fn"].get("dp"))
+        if ht in fx.bodies and fx.bodies[ht]["krate"] == "proguard" and ht not in (rt, rf) and len(tail["args"]) >= 1:
+            try:
+                hargs = []
+                for a_ in tail["args"]:
+                    outs_ = [v_ for s_, (k_, v_) in sy.ev(a_, S.St()) if k_ == S.VAL]
+                    hargs.append(outs_[0] if len(outs_) == 1 else None)
+                if hargs[0] == tr and all(h_ is not None for h_ in hargs):
+                    deleg = (S.short_path(ht), hargs)
+            except S.Undecidable:
+                deleg = None
+
+    def same_callable(a_, b_):
+        return a_ == b_ or (a_[0] == "closure" and b_[0] == "closure" and a_[1] == b_[1])
+
+    def self_similar(t):
+        if deleg and t[0] == "call" and t[1] == deleg[0] and len(t[2]) == len(deleg[1]) and all(same_callable(x_, y_) for x_, y_ in zip(t[2][1:], deleg[1][1:])):
+            return call(S.short_path(p), slf, t[2][0])
+        return None
 
     def flat_map_form(fv):
         """frames = trace.frames.iter().flat_map(|f| remap_frame(f).peekable().chain(<f.clone() iff nothing was remapped>)).collect()"""
@@ -113,7 +139,7 @@ def check_typed(fx, rep, rule, impl):
         return okf and seen_ == {True, False}, desc
 
     def outcome(st, out):
-        v = fc.rewrite(out[1], rw)
+        v = fc.rewrite(fc.rewrite(out[1], rw), self_similar)
         if v[0] == "adt" and v[1] == "StackTrace":
             d = dict(v[3])
             fv = d.get("frames")
